@@ -12,6 +12,7 @@ import TracingModel.Props.C11
 import TracingModel.Props.C12
 import TracingModel.Props.C13
 import TracingModel.Props.C14
+import TracingModel.Props.C15
 import TracingModel.Props.C19
 import TracingModel.Props.C20
 import TracingModel.AuditLib
